@@ -169,6 +169,33 @@ def set_state_sweep(chk, MX, n):
                           dict(kind="set-state", trim=kind, scene=sd, aircraft=acs, problems=problems, returned=ret))
 
 
+def target_first_guess(chk, MX, n):
+    """target_CL(set_state=False) with a target that its first guess (alpha = 0, the given controls) already meets: the state comes back"""
+    rng = chk.rng
+    for it in range(n):
+        sd, acs = scene_for(chk, MX, False, it % 2 == 0)
+        name, ac, st, cs = acs[0]
+        if isinstance(st.get("velocity"), list):
+            st = {"velocity": 90.0, "alpha": 3.0, "beta": st.get("beta", 1.0)}
+        st = dict(st, alpha=3.0)
+        try:
+            probe = gen.build_scene(MX, sd, [(name, ac, dict(st, alpha=0.0), {})])
+            CL0 = float(probe.solve_forces(dimensional=False)[name]["total"]["CL"])
+            sc = gen.build_scene(MX, sd, [(name, ac, st, cs)])
+            before = snapshot(sc)
+            sc.target_CL(CL=CL0, set_state=False, control_state={})
+            after = snapshot(sc)
+        except Exception as e:
+            chk.count("first_guess_error=" + type(e).__name__)
+            continue
+        chk.case(dict(analysis="target_CL_first_guess", it=it), nontrivial=True)
+        bad = api.compare(before, after, rtol=1e-9, atol=1e-9)
+        if bad:
+            chk.violation("state-changed:target_CL:first-guess-meets-target", dict(kind="side-effect", analysis="target_CL(set_state=False)", scene=sd, aircraft=acs,
+                                                                                 target=CL0, differences=bad[:6]))
+            return
+
+
 def run(chk):
     MX = common.setup_env()
     import machupX.helpers as H
@@ -177,6 +204,7 @@ def run(chk):
                               "oracles: solve_forces treated as a function of the scene state"])
     side_effect_sweep(chk, MX, chk.q(80, 400))
     set_state_sweep(chk, MX, chk.q(9, 90))
+    target_first_guess(chk, MX, chk.q(2, 10))
     failing, nfiles, errors = common.run_cases("C08", IMPORTS, [], RESTORE_CASES)
     chk.cov["correspondence_cases"] = len(RESTORE_CASES)
     chk.cov["traces_validated_against_impl"] = len(RESTORE_CASES)
